@@ -2,6 +2,7 @@ import Librfn.Model.PT
 import Librfn.Spec.PT
 import Librfn.Lemmas.PT
 import Librfn.Lemmas.PTSplit6
+import Librfn.Lemmas.PTInv6
 /-!
 # C08 — protothreads resume exactly where they blocked and relay child results
 
@@ -211,6 +212,94 @@ theorem spawn_and_check_reflects (fuel : Nat) (l : Label) (ch : Stmt) (e : Optio
       by_cases hc : c = .failed
       · subst hc; simp [exec, Out.prepend]
       · simp [hc, exec, Out.prepend]
+
+/-- **invocations return yielded or waiting at blocking points and exited or failed at PT_END,
+PT_EXIT(_ON) and PT_FAIL(_ON)** — for a run of a function body (any entry the `switch` can take from a
+consistent control state, any budget): it never reaches `default: assert(0)`; if it returns yielded or
+waiting, `*pt` holds a label of this body that belongs to a PT_YIELD (yielded), a PT_WAIT /
+PT_WAIT_UNTIL (waiting) or a PT_SPAWN whose child blocked with that very code; if it returns exited
+(failed) from inside the body, the body's own text contains a PT_EXIT(_ON) (PT_FAIL(_ON) /
+PT_SPAWN_AND_CHECK).  Falling off the end (`.normal`) is PT_END, which returns exited. -/
+theorem return_codes (fuel : Nat) (s : Stmt) (e : Option Label) (res : Code) (n : Nat) (st : St) (r : Out)
+    (hwf : WF s) (hE : Entry s e st) (hL : ∀ l, e = some l → Live s st.me)
+    (h : exec fuel s e res n st = some r) :
+    match r with
+    | .abort _ => False
+    | .normal _ _ _ _ => True
+    | .ret c st' _ _ =>
+        (c = .yielded ∨ c = .waiting → st'.me.pt ∈ labels s ∧ MayBlock s st'.me.pt c) ∧
+        (c = .exited ∨ c = .failed → MayReturn s c) := by
+  have hP := inv_at fuel s hwf e res n st r hE hL h
+  cases r with
+  | abort => exact hP
+  | normal => trivial
+  | ret c st' n' t =>
+    have h2 := hP.2
+    cases c <;> simp [Code.blocking] at h2 ⊢ <;> first | exact ⟨h2.1, h2.2.1⟩ | exact h2
+
+/-- one real invocation from a consistent control state: no `assert(0)`; afterwards `*pt` is 0 or a
+label of the body; if it blocked the state is consistent again (so the next invocation finds its `case`) -/
+theorem invoke_good (fuel : Nat) (body : Stmt) (st : St) (res : Res) (hwf : WF body) (hg : Good body st.me)
+    (h : invoke fuel body st = some res) :
+    ∃ c st' tr, res = .code c st' tr ∧ (st'.me.pt = 0 ∨ st'.me.pt ∈ labels body) ∧
+      (c.blocking = true → Good body st'.me ∧ MayBlock body st'.me.pt c) ∧
+      (c = .failed → MayReturn body .failed) := by
+  obtain ⟨e, hent, hE, hL⟩ := entry_of_good hwf hg
+  simp only [invoke, hent] at h
+  have h0 : st.me.pt = 0 ∨ st.me.pt ∈ labels body := hg.imp id (·.1)
+  have key : ∀ q, (q = st.me.pt ∨ q ∈ labels body) → (q = 0 ∨ q ∈ labels body) := by
+    intro q hq; rcases hq with hq | hq
+    · rw [hq]; exact h0
+    · exact Or.inr hq
+  cases hx : exec fuel body e .yielded 0 st with
+  | none => rw [hx] at h; cases h
+  | some r =>
+    rw [hx] at h
+    have hP := inv_at fuel body hwf e .yielded 0 st r hE hL hx
+    cases r with
+    | abort => exact hP.elim
+    | normal st1 r1 n1 t =>
+      simp only [Option.some.injEq] at h; subst h
+      exact ⟨_, _, _, rfl, key _ hP, by simp [Code.blocking], by simp⟩
+    | ret c st1 n1 t =>
+      simp only [Option.some.injEq] at h; subst h
+      refine ⟨_, _, _, rfl, key _ hP.1, ?_, ?_⟩
+      · intro hb; have h2 := hP.2; rw [if_pos hb] at h2; exact ⟨Or.inr ⟨h2.1, h2.2.2⟩, h2.2.1⟩
+      · intro hc; subst hc; have h2 := hP.2; simpa [Code.blocking] using h2
+
+/-- **`*pt` is always 0 or a planted label: the `default: assert(0)` branch is unreachable** — in the
+main loop started from a consistent state (in particular after PT_INIT), however many invocations,
+children to any depth: every invocation returns a code, and the value of `*pt` it leaves is 0 or a
+label of the body -/
+theorem pt_always_label_or_zero (fuel : Nat) (body : Stmt) (hwf : WF body) :
+    ∀ k st logs, Good body st.me → mainLoop fuel body k st = some logs →
+      ∀ x, x ∈ logs → (∃ t c, x.1 = t ++ [Ev.ret c]) ∧ (x.2 = 0 ∨ x.2 ∈ labels body) := by
+  intro k
+  induction k with
+  | zero => intro st logs _ h; simp only [mainLoop, Option.some.injEq] at h; subst h; intro x hx; cases hx
+  | succ k ih =>
+    intro st logs hg h
+    rw [mainLoop] at h
+    cases hi : invoke fuel body st.bump with
+    | none => rw [hi] at h; cases h
+    | some res =>
+      rw [hi] at h
+      obtain ⟨c, st1, t, rfl, hpt, hblk, _⟩ := invoke_good fuel body st.bump res hwf hg hi
+      dsimp only at h
+      by_cases hb : c.blocking = true
+      · rw [if_pos hb] at h
+        rcases Option.map_eq_some_iff.1 h with ⟨logs', hl', rfl⟩
+        intro x hx
+        rcases List.mem_cons.1 hx with rfl | hx
+        · exact ⟨⟨_, _, rfl⟩, hpt⟩
+        · exact ih st1 logs' (hblk hb).1 hl' x hx
+      · rw [if_neg hb] at h; simp only [Option.some.injEq] at h; subst h
+        intro x hx
+        rcases List.mem_singleton.1 hx with rfl
+        exact ⟨⟨_, _, rfl⟩, hpt⟩
+
+/-- the state after PT_INIT (and the zero-initialised statics) is consistent -/
+theorem good_init (body : Stmt) : Good body St.init.me := Or.inl rfl
 
 /-! ## Non-vacuity: a concrete body with a blocking point in a loop in a conditional, a child spawned
 from inside a loop, PT_WAIT_UNTIL with a side-effecting condition, PT_CALL and PT_CHILD_OK -/
